@@ -47,6 +47,8 @@ type Peer struct {
 	AutoAck bool // acknowledge calls (subscribe to our node management) with a success result
 	OnRecv  func(s *Sent)
 	Sends   int
+
+	probeCtr uint64 // counter of the post-fault probe read (scenario bookkeeping)
 }
 
 //go:norace
